@@ -18,7 +18,7 @@ struct ScanPlan { int api; int buf; int reply_at; int reply; int ext_i; int ext_
 struct TaskPlan { std::vector<ScanPlan> scans; bool compile_task = false; };
 struct RunPlan { int rules_idx; std::vector<TaskPlan> tasks; SchedPolicy pol; bool fresh_rules = false; };
 
-struct Shared { YR_RULES* rules; std::string image; std::vector<std::string> bufs; std::vector<std::string> files; std::string trunc_path; };
+struct Shared { YR_RULES* rules; std::string image; std::vector<std::string> bufs; std::vector<std::string> files; std::string trunc_path; std::vector<std::string> pristine; std::string pristine_struct; };   // pristine: the rule set's arena contents right after compilation
 
 static const char* MDATA[] = {"", "mdata-1", "mdata-2"};
 
@@ -188,10 +188,15 @@ static RunPlan gen_plan(Rng& rng, int nrules, bool big) {
 
 struct RunReport { std::string sig, klass, detail; uint64_t sched_hash = 0; SchedStats st; int64_t scans = 0; int64_t new_hot = 0; std::vector<SchedEntry> trace; };
 
+// every run starts from the rule set as compiled: what a run sees never depends on what an earlier run on this worker
+// left in the shared rule set (a replay in a fresh process starts from the same bytes)
+static void restore_pristine(const Shared& sh0) { YR_RULES* r = sh0.rules; for (uint32_t i = 0; i < r->arena->num_buffers && i < sh0.pristine.size(); i++) { YR_ARENA_BUFFER* b = &r->arena->buffers[i]; if (b->data && b->used == sh0.pristine[i].size()) memcpy(b->data, sh0.pristine[i].data(), b->used); } if (sh0.pristine_struct.size() == sizeof(*r)) memcpy(r, sh0.pristine_struct.data(), sizeof(*r)); }
+
 static RunReport execute(const std::vector<Shared>& shared, const RunPlan& rp, uint64_t run_seed, const std::vector<SchedEntry>* script = nullptr) {
   RunReport rep; const Shared& sh0 = shared[rp.rules_idx];
   sim_rand_seed(run_seed);
   sim_detheap_reset();
+  restore_pristine(sh0);
   // solo references use the long-lived rule set; the concurrent phase gets a copy loaded just now, so that
   // its threads are the first ever to create scanners on it (lazy per-rule-set initialisation would race here)
   Shared sh = sh0; YR_RULES* fresh = NULL;
@@ -201,8 +206,19 @@ static RunReport execute(const std::vector<Shared>& shared, const RunPlan& rp, u
   std::vector<std::vector<ScanResult>> solo;
   g_clock.override_fn = [](int clk, struct timespec* ts) { int id = sched_self(); TaskClock& c = g_tclock[id < 0 ? 63 : id % 63]; c.now += g_clock_step; int64_t t = c.now; if (clk == CLOCK_PROCESS_CPUTIME_ID) { t = 0; for (int i = 0; i < 64; i++) t += g_tclock[i].now - 1000000000LL; } if (clk == CLOCK_REALTIME) t += g_clock.epoch0 * 1000000000LL; ts->tv_sec = t / 1000000000LL; ts->tv_nsec = t % 1000000000LL; return true; };
   g_clock_step = 2000000;      // 2 ms per clock read: a scan with a 2 s timeout survives 1000 of its own reads
+  uint64_t hash_in = hash_rules(sh0.rules);
   for (auto& tp : rp.tasks) { for (auto& c : g_tclock) c = TaskClock(); solo.push_back(run_task(shs, tp)); g_watch.diff_full(); }
   for (auto& c : g_tclock) c = TaskClock();
+  // per-scanner definitions, callbacks, timeouts and module data are private to their scanner: already the sequential
+  // reference scans must leave the rule set as they found it.  (The long-lived rule set is put back afterwards, so
+  // that what a later run on this worker sees does not depend on this one.)
+  if (hash_rules(sh0.rules) != hash_in) {
+    rep.klass = "shared-rules-written"; rep.sig = "shared|rule-set-modified|by-sequential-scans"; rep.detail = "the shared rule set's memory changed while the tasks' scans were run one after the other (scanner-level definitions, module data, callbacks and timeouts must stay in the scanner)";
+    restore_pristine(sh0);
+    if (fresh) yr_rules_destroy(fresh);
+    g_clock.override_fn = nullptr;
+    return rep;
+  }
   uint64_t rules_hash0 = hash_rules(sh.rules);
   struct sigaction bus0, segv0; sigaction(SIGBUS, NULL, &bus0); sigaction(SIGSEGV, NULL, &segv0);
   size_t live0 = sim_alloc_live_count(); int fds0 = g_fs.open_fds, maps0 = g_fs.live_maps, fc0 = g_fs.foreign_closes;
@@ -267,6 +283,7 @@ static std::vector<Shared> make_shared(uint64_t seed) {
     lc.spec.sources[0].second += "rule many_ab { strings: $a = \"ab\" condition: #a > 3 }\nrule many_by { strings: $b = \"bystander\" condition: $b }\n";
     CompileResult cr = compile_rules(lc.spec); if (!cr.rules) { fprintf(stderr, "c09: shared rules do not compile: %s\n", cr.messages.c_str()); abort(); }
     sh.rules = cr.rules; save_rules(cr.rules, sh.image);
+    for (uint32_t b = 0; b < cr.rules->arena->num_buffers; b++) { YR_ARENA_BUFFER* ab = &cr.rules->arena->buffers[b]; sh.pristine.push_back(ab->data ? std::string((const char*) ab->data, ab->used) : std::string()); } sh.pristine_struct.assign((const char*) cr.rules, sizeof(*cr.rules));
     sh.bufs = {lc.buffers[0], corpus_file("tiny"), "", gen_text_buffer(rng, "alpha_text reg77ex EXTMARK", 400), corpus_file("elf_with_imports"), std::string(9000, 'q') + " alpha_text", std::string("bystander ") + [] { std::string m; for (int k = 0; k < 300; k++) m += "ab"; return m; }() + " bystander alpha_text"};
     for (size_t b = 0; b < sh.bufs.size(); b++) { std::string p = tmp_dir() + "/c09-" + std::to_string(i) + "-" + std::to_string(b); write_file(p, sh.bufs[b]); sh.files.push_back(p); }
     sh.trunc_path = tmp_dir() + "/c09-trunc-" + std::to_string(i);
